@@ -260,7 +260,7 @@ fn macro_instances(rep: &mut Report, ctx: &Ctx) {
 }
 
 pub fn run(ctx: &Ctx) -> Report {
-    let n = if cfg!(miri) { 6 } else { ctx.pick(3000, 150_000) };
+    let n = if cfg!(miri) { 6 } else { ctx.pick(20_000, 600_000) };
     let types = [5, 25, 15, 31];
     let seed = ctx.seed;
     let mut rep = par(ctx, types.len() * n, |idx, rep| {
